@@ -46,6 +46,7 @@ var externalAssumptions = map[string]string{
 	"github.com/kamstrup/intmap.(*Map).Del":   "finite-map semantics: afterwards key is absent, other keys unchanged",
 	"github.com/kamstrup/intmap.(*Map).Clear": "finite-map semantics: afterwards every key is absent",
 	"github.com/kamstrup/intmap.(*Map).Len":   "returns a non-negative int; no state change",
+	"github.com/kamstrup/intmap.(*Map).ForEach": "calls the callback some number of times: every intmap table and everything else on the heap may have changed afterwards (havoc)",
 	"container/list":                          "list.New/Front/PushFront/Remove: results unconstrained, no program state other than the list modified (the list contents are not modelled)",
 	"bufio":                                   "bufio.NewReader returns a newly allocated reader; (*Reader).ReadString: results unconstrained (it may read ahead into the reader's own buffer); no program state modified",
 }
@@ -118,6 +119,8 @@ func (e *Engine) external(key string, fn *ssa.Function) extFn {
 		return extIntmapClear
 	case "Len":
 		return extIntmapLen
+	case "ForEach":
+		return extIntmapForEach
 	}
 	k := shortKey(key)
 	switch k {
@@ -508,4 +511,15 @@ func extNewObject(x *Exec, fr *Frame, st *State, fn *ssa.Function, args []*SV, s
 		unsupportedf("%s in pure evaluation", fn)
 	}
 	k(st, fr, TV(x.newRef(st)))
+}
+
+
+// ForEach runs an arbitrary callback an arbitrary number of times: everything may change.
+func extIntmapForEach(x *Exec, fr *Frame, st *State, fn *ssa.Function, args []*SV, site ssa.Instruction, k callK) {
+	if fr.pure {
+		unsupportedf("intmap ForEach in pure evaluation")
+	}
+	x.intmapComps(st.heap, x.intmapVT(fn))
+	x.havocAllHeap(st)
+	k(st, fr, &SV{})
 }
